@@ -290,6 +290,18 @@ func (s *Schema) control() (err error) {
 		return
 	}
 
+	// values of a field index must be of the type its field is indexed with
+	// otherwise comparing them with the values of objects makes us panic
+	for fn, fi := range s.ObjectIndex.Fields {
+		fd, ok := s.Fields[fn]
+		if !ok {
+			return fmt.Errorf("field index %s is not ordered: %w", fn, ErrUnkownField)
+		}
+		if cast, ok := fd.castType(); !ok || cast != fi.Cast {
+			return fmt.Errorf("field index %s is not ordered according to type %s", fn, fd.Type)
+		}
+	}
+
 	// verifying index integrity (longer process so done at last)
 	// we control any index corruption
 	if uuids, err = uuidsFromDir(dir); err != nil && !os.IsNotExist(err) {
